@@ -170,7 +170,12 @@ def run_dmrg(spec):
                         ortho = psi.copy()
                         ortho.gauge_total_charge()
                     eng2 = cls(psi2, model, opts2, orthogonal_to=[ortho])
-                    E2, _ = eng2.run()
+                    try:
+                        E2, _ = eng2.run()
+                    except Exception as e:
+                        if spec['diag'] == 'arpack' and type(e).__name__ in ('ArpackError', 'ArpackNoConvergence'):
+                            raise Skip()  # as above
+                        raise
                     psi2.test_sanity()
                     r2 = M.mps_to_dense(psi2).reshape(-1)
                     n2 = np.linalg.norm(r2)
@@ -182,7 +187,10 @@ def run_dmrg(spec):
                     EH2 = np.vdot(r2, H @ r2).real
                     # (with the Lanczos option E_shift the relevant energy is the one of the shifted operator)
                     if E2 + (spec['E_shift'] or 0.) < -1e-6 and E2 < -1e-6:
-                        require(ov <= 1e-6, 'excited-not-orthogonal', '|<psi0|psi1>| = %r (E1 = %r)' % (ov, E2), **tags0)
+                        # the projector acts inside the local eigensolver only (the initial guess is not projected), so the
+                        # component along psi0 decays from sweep to sweep and is as small as the convergence criteria make it:
+                        # a remaining overlap eps costs eps^2 |E| in energy, max_E_err = 1e-8 allows eps ~ 1e-4 .. 1e-3
+                        require(ov <= 1e-3, 'excited-not-orthogonal', '|<psi0|psi1>| = %r (E1 = %r)' % (ov, E2), **tags0)
                         if eng2.mixer is None:
                             require(abs(E2 - EH2) <= 1e-7 * max(1., nH), 'excited-energy-mismatch', 'E_run = %r, <psi1|H|psi1> = %r' % (E2, EH2), **tags0)
                         lam2 = lam[1] if m > 1 else lam[0]
@@ -266,7 +274,8 @@ def run_infinite(spec):
         require(abs(psi.norm - 1.) <= 1e-10, 'norm-not-1', 'psi.norm = %r' % psi.norm, **tags)
         EH = float(np.real(model.H_MPO.expectation_value(psi)))
         Eb = float(np.mean(psi.expectation_value(model.H_bond)))
-        require(abs(EH - Eb) <= 1e-8, 'infinite-energy-representations', 'MPO %r vs bonds %r' % (EH, Eb), **tags)
+        # (expectation_value of bond operators assumes the canonical form, which holds up to norm_test only)
+        require(abs(EH - Eb) <= 1e-8 + 10 * nt, 'infinite-energy-representations', 'MPO %r vs bonds %r (norm_test %r)' % (EH, Eb, nt), **tags)
         require(EH >= e_exact - 1e-9, 'below-ground-state', '<H> per site = %r < exact %r' % (EH, e_exact), **tags)
         err = float(np.max(eng.trunc_err_list)) if len(eng.trunc_err_list) else 0.
         # E_run of iDMRG is an estimate from the growth of the total energy: accurate up to the convergence reached
